@@ -14,19 +14,19 @@ def register(w):
         "property_of": {"stream": "_stream"},
         # hypothesis: visiting a well-formed node gives a well-formed node of the same class family;
         # the only refusals are ValueErrors
-        "visit_requires": ["wf(node)"],
+        "visit_requires": ["wf(node)", "dok(node)"],
         "visit_raises": {"ValueError": "any"},
-        "visit_ensures": ["wf(result)", "same_kind(node, result)", "is_node(result)"],
-        "generic_requires": ["wf(node)"],
+        "visit_ensures": ["wf(result)", "same_kind(node, result)", "is_node(result)", "dok(result)"],
+        "generic_requires": ["wf(node)", "dok(node)"],
         "generic_ensures": ["wf(result)", "same_kind(node, result)", "is_node(result)",
-                            "same_class(node, result)"],
+                            "same_class(node, result)", "dok(result)"],
         "assumes": ["NodeTransformer.generic_visit returns the node it was given (same class), its "
                     "children replaced by visit results that satisfy the hypothesis",
                     "visit_Call / process_method_call / callbacks (typing and inspect reflection) "
                     "are not under contract: assumed to satisfy the hypothesis",
-                    "visit_Dict and visit_Attribute (comprehensions over zip / enumerate of "
-                    "symbolic lists, make_dataclass) are outside the engine's subset: assumed to "
-                    "satisfy the hypothesis, exercised by engine B"],
+                    "visit_Dict (comprehension over zip of symbolic lists, make_dataclass) is "
+                    "outside the engine's subset: assumed to satisfy the hypothesis, exercised "
+                    "by engine B"],
         "properties": ["C10", "C08"],
     })
     C.register(w, {
@@ -34,7 +34,10 @@ def register(w):
         "self": K,
         "params": {"name": "py"},
         "raises": {},
-        "ensures": ["result is not None"],     # an unknown type is Any, never a KeyError / None
+        # an unknown type is Any, never a KeyError / None; a recorded type is returned as recorded
+        "ensures": ["result is not None",
+                    "implies(self._found_types.get(name, None) is not None, "
+                    "same(result, self._found_types.get(name, None)))"],
         "modifies": [],
         "properties": ["C10", "C08"],
     })
@@ -44,12 +47,53 @@ def register(w):
             "key": f"{K}.visit_{cls}",
             "self": K,
             "params": {"node": "py"},
-            "requires": [f"isinstance(node, ast.{cls})", "wf(node)"],
+            "requires": [f"isinstance(node, ast.{cls})", "wf(node)", "dok(node)"],
             "raises": {"ValueError": "any"},
-            "ensures": [f"isinstance(result, ast.{cls})"],
+            "ensures": [f"isinstance(result, ast.{cls})", "dok(result)"],
             "modifies": ["*"],
             "properties": ["C10", "C08"],
         })
+    # visit_Attribute: an attribute of a dictionary literal is the field lookup {…}.name. Every
+    # position collected for the name is in range of `values`, the one used is the position of
+    # the LAST key equal to the name (Python's meaning of a repeated key; C08 follows that type),
+    # and the only refusal is the designed ValueError: no key equals the name (and it is not zip)
+    C.register(w, {
+        "key": f"{K}.visit_Attribute",
+        "self": K,
+        "params": {"node": "py"},
+        "requires": ["isinstance(node, ast.Attribute)", "wf(node)", "dok(node)"],
+        "raises": {"ValueError": "any"},
+        "ensures": ["isinstance(result, ast.Attribute)", "dok(result)",
+                    # {…}.name is typed after the value next to the LAST key equal to the name
+                    # (generic_visit works in place: after it `node` is the object returned)
+                    "implies(isinstance(result.value, ast.Dict) and key_has(result.value.keys, result.attr) and "
+                    "self._found_types.get(nth(result.value.values, key_last(result.value.keys, result.attr)), None) is not None, "
+                    "same(self._found_types.get(result, None), "
+                    "self._found_types.get(nth(result.value.values, key_last(result.value.keys, result.attr)), None)))"],
+        "modifies": ["*"],
+        "comps": {0: {"invariant": ["idx_below(_out, _i)",
+                                    "iff(is_empty(_out), not key_has(_done, key))",
+                                    "implies(not is_empty(_out), last_of(_out) == key_last(_done, key))"],
+                      "hints": ["lem_ib_mono(_out, _i)", "lem_ib_snoc(_out, _i, _i + 1)",
+                                "lem_lo_snoc(_out, _i)", "lem_ib_lo(_out, _i)", "lem_lo_nth(_out)"],
+                      "step_hints": ["lem_kha(_done, [head(_rest)], key)",
+                                     "lem_klr(_done, [head(_rest)], key)",
+                                     "lem_kld(_done, [head(_rest)], key)"]}},
+        "properties": ["C10", "C08"],
+    })
+    C.register(w, {
+        "key": f"{K}.visit_Dict",
+        "self": K,
+        "params": {"node": "py"},
+        "requires": ["isinstance(node, ast.Dict)", "wf(node)", "dok(node)"],
+        "raises": {"ValueError": "any"},
+        "ensures": ["isinstance(result, ast.Dict)", "dok(result)"],
+        "modifies": ["*"],
+        "comps": {0: {"invariant": ["all_pairs(_out)"], "hints": [],
+                      "step_hints": ["lem_ap_snoc(_out0, _elt)"]},
+                  1: {"invariant": [], "hints": ["lem_ap_cat(_done, _rest)"]}},
+        "properties": ["C10", "C08"],
+    })
     # C09: the callbacks registered on the class and on the method fire in that order, each once,
     # each receives the stream returned by the previous one and the call node as rewritten so far;
     # nothing else is called; the transformer's stream is the last one returned
@@ -80,3 +124,14 @@ def register(w):
         "properties": ["C09"],
     })
 
+
+
+_reg = register
+
+
+def register(w):
+    _reg(w)
+    from pyvc.lemmas import register_lemma
+    for n in ("ib_mono", "ib_snoc", "ib_lo", "lo_snoc", "lo_nth", "ap_cat", "ap_snoc"):
+        register_lemma(w, {"name": f"pos_{n}", "pred": f"lem_{n}", "induct": "list", "fuel": 4,
+                           "properties": ["C10", "C08"]})
